@@ -160,7 +160,8 @@ func workerSearch(t *testing.T, prop, tier string) {
 	if outPath != "" {
 		curf, _ = os.Create(outPath + ".cur")
 	}
-	for i := widx; out.Runs < maxRuns; i += nw {
+	skip := envInt("VERIF_SKIP", 0)
+	for i := widx + skip*nw; out.Runs < maxRuns; i += nw {
 		if out.Runs%16 == 0 && time.Since(start) > budget {
 			break
 		}
